@@ -25,7 +25,10 @@ fn root() -> PathBuf {
 
 /// `cargo build -p ddnnife_bin --features verif` of the repo's current tree
 fn build_binary() -> Result<PathBuf, String> {
-    let target = root().join(".cache").join("target-bin");
+    // one target directory per source tree: cargo's freshness test does not notice that the same
+    // workspace is now read from another path
+    let tag: String = repo().chars().map(|c| if c.is_ascii_alphanumeric() { c } else { '_' }).collect();
+    let target = root().join(".cache").join(if repo() == "/repo" { "target-bin".to_string() } else { format!("target-bin{tag}") });
     let out = Command::new("cargo")
         .args(["build", "--offline", "-p", "ddnnife_bin", "--features", "verif", "--manifest-path"])
         .arg(format!("{}/Cargo.toml", repo()))
@@ -346,6 +349,7 @@ pub fn run(_kind: &str, ctx: &Ctx, out: &mut dyn Write) {
     let mut rng = Rng::new(ctx.seed);
     let repeats = if thorough { 6 } else { 4 };
     let mut case_no = 0usize;
+    let mut hang_batches = 0usize;
     for b in 0..ctx.count {
         // the first batches are the minimal reproduction shape of F3: one cheap line
         let n = if b < 3 { 1 + b } else { batch_size(&mut rng, thorough) };
@@ -372,7 +376,9 @@ pub fn run(_kind: &str, ctx: &Ctx, out: &mut dyn Write) {
                 c
             })
             .collect();
-        let timeout = Duration::from_secs(if thorough { 240 } else { 90 });
+        // a hanging implementation must not stall the whole check: after the first hang the
+        // limit drops, after three batches with hangs the run stops (the cases so far are judged)
+        let timeout = Duration::from_secs(if hang_batches > 0 { 8 } else if thorough { 240 } else { 60 });
         let outs: Vec<RunOut> = std::thread::scope(|sc| {
             let hs: Vec<_> = cfgs
                 .iter()
@@ -389,6 +395,9 @@ pub fn run(_kind: &str, ctx: &Ctx, out: &mut dyn Write) {
                 .collect();
             hs.into_iter().map(|h| h.join().unwrap()).collect()
         });
+        if outs.iter().any(|o| o.status == "timeout") {
+            hang_batches += 1;
+        }
         for (c, o) in cfgs.iter().zip(outs.iter()) {
             let mut s = String::new();
             writeln!(s, "case c14-{} C14", case_no).unwrap();
@@ -418,6 +427,9 @@ pub fn run(_kind: &str, ctx: &Ctx, out: &mut dyn Write) {
             }
             writeln!(s, "end").unwrap();
             out.write_all(s.as_bytes()).unwrap();
+        }
+        if hang_batches >= 3 {
+            break;
         }
     }
 }
